@@ -7,6 +7,7 @@ mod gen;
 mod par;
 mod parcmd;
 mod sched;
+mod sink;
 mod stream;
 mod trace;
 
@@ -88,6 +89,7 @@ fn main() {
         "sched-random" => parcmd::cmd_sched_random(&a),
         "par-free" => parcmd::cmd_par_free(&a),
         "sched-one" => parcmd::cmd_sched_one(&a),
+        "sink" => sink::cmd_sink(&a),
         other => {
             eprintln!("unknown subcommand {other:?}");
             std::process::exit(2);
